@@ -3,7 +3,9 @@
 proof  : coq/Pca_Model.v (compute_mean / compute_covariance_matrix with the triangle semantics of DESIGN
          1.4, what the dense and the randomized front-end see, embed()), coq/Pca_Spec.v, Pca_Proof*.v,
          Spectral_KyFan.v (Ky Fan's inequality, every ordered field), Properties_C06.v.
-tie    : T  translate/t_eig.py regenerates coq/gen/EigSelect.v (which eigenpairs the front-ends select);
+tie    : T  translate/t_eig.py regenerates coq/gen/EigSelect.v (which eigenpairs the front-ends select) and
+            translate/t_pca.py regenerates coq/gen/PcaEmbed.v (the statement chain of PCA's embed(), locals
+            alpha-renamed; obligation Pca_Tie.pca_embed_chain);
          C  harness/c06.cpp against <repo>/include:
             (i)   exact stream: compute_mean + compute_covariance_matrix on dyadic data with N a power of
                   two; the matrix exactly as returned (both triangles) is compared with the extracted Qc
@@ -44,7 +46,9 @@ TRUSTED = [
     "residual / orthonormality decision procedure (tolerance 1e-9 relative, 1e-6 for the randomized solver)",
     "reference eigenvalues (Eigen, through harness/c06.cpp EIG, on the model's exact covariance rounded to "
     "binary64) decide WHICH eigenvalues are the d largest",
-    "translate/t_eig.py (selection expressions of the solver front-ends, owned by C05) -> coq/gen/EigSelect.v",
+    "translate/t_eig.py (selection expressions of the solver front-ends, owned by C05) -> coq/gen/EigSelect.v; "
+    "translate/t_pca.py (statement chain of PCA's embed(), regular expressions, self-test with 6 mutations + a "
+    "harmless rename) -> coq/gen/PcaEmbed.v",
     "extraction (ExtrOcamlBasic only) + OCaml 4.13.1 + coq/extract/c06_driver.ml (parsing/printing of rationals)",
     "harness/c06.cpp + harness/spectral_common.hpp (hex-float transport); PCA / Kernel PCA / MDS are run by "
     "instantiating X##Implementation(ImplementationBase(...)).validate(); .embed() directly (the body of the "
@@ -602,20 +606,25 @@ def shrink_case(ctx, exe, mexe, c):
 
 
 def translate(ctx):
+    """regenerate coq/gen/EigSelect.v (T-eig) and coq/gen/PcaEmbed.v (T-pca) from the tree under test"""
     sys.path.insert(0, os.path.join(ctx.verif, "translate"))
     import importlib
-    t_eig = importlib.import_module("t_eig")
-    out = os.path.join(ctx.verif, "coq", "gen", "EigSelect.v")
-    try:
-        text = t_eig.emit(t_eig.parse(ctx.repo))
-    except t_eig.TranslateError as ex:
-        ctx.unshown("T-eig cannot read the solver front-ends any more: %s" % ex)
-        return False
-    except OSError as ex:
-        ctx.unshown("T-eig: %s" % ex)
-        return False
-    t_eig.write_if_changed(out, text)
-    return True
+    ok = True
+    for modname, outname in (("t_eig", "EigSelect.v"), ("t_pca", "PcaEmbed.v")):
+        mod = importlib.import_module(modname)
+        out = os.path.join(ctx.verif, "coq", "gen", outname)
+        try:
+            text = mod.emit(mod.parse(ctx.repo))
+        except mod.TranslateError as ex:
+            ctx.unshown("%s cannot read the source any more: %s" % (modname, ex))
+            ok = False
+            continue
+        except OSError as ex:
+            ctx.unshown("%s: %s" % (modname, ex))
+            ok = False
+            continue
+        mod.write_if_changed(out, text)
+    return ok
 
 
 def build_cases(ctx, quick):
